@@ -19,15 +19,34 @@ Clauses (signature prefix):
   announce/...  what a side puts on the air is what its options say (receive MIU, LTO, LSC, WKS, LRi/LRt, WT, BRS)
   air/...       every NFC-DEP frame after the ATR: transport data <= LR of its receiver, bit rate == the one selected
                 by PSL_REQ; every LLC PDU (reassembled from the DEP chain): information field <= MIU announced by its
-                receiver (aggregates as a whole and each member)
+                receiver (aggregates as a whole and each member); every I PDU: service data <= the MIU its receiving
+                endpoint announced in the CONNECT / CC that set the connection up (read off the air)
+  dlc/...       send() on a data link connection refuses a message that is within the MIU the peer endpoint announced
   lto/...       a side's own silence between receiving a PDU and sending the next one, measured on the logical clock
                 (only nfcpy's own sleeps and time-outs advance it), stays within the link time-out it announced
   traffic/...   an exception escapes connect() while the link is used within the announced limits
-Traffic after activation: each side sends UI PDUs of exactly the MIU the peer announced, one byte more (must be
-refused locally), one to seven bytes less, and bursts of small ones (aggregation) from its on-connect callback; the
-link then idles for a dozen SYMM turns.
+Traffic after activation (all PDU kinds whose size nfcpy budgets itself), every cell:
+  UI    each side sends UI PDUs of exactly the MIU the peer announced, one byte more (must be refused locally), one to
+        seven bytes less, bursts of small ones (aggregation) and one group of small ones queued at once whose
+        aggregate would be MIU-2 .. MIU+2 octets, from its on-connect callback
+  SNL   each side has 2..4 (more when the peer MIU needs it: a name is at most 254 octets) resolve() calls for unbound
+        names pending before its link loop collects for the first time (helper threads, started one by one until the
+        request is queued); the SDREQ TLV sizes (3 + len(name)) sum to room-3 .. room+6 where room is the peer's MIU
+        (initiator) or the peer's MIU minus the 4-octet SDRES the same PDU answers with (target)
+  I     one data link connection per cell (the connecting device alternates): connect by address to a socket the peer
+        listens on, receive MIU / RW set on both ends (below, equal to and above the link MIU; the CONNECT / CC
+        parameters are read off the air), then in both directions I PDUs of exactly the connection MIU, one octet
+        more (must be refused locally with EMSGSIZE), small ones queued together (aggregation near the link MIU), DISC
+the link then idles for a dozen SYMM turns.  The helper threads are not participants of the net clock: they only block
+on nfcpy's own condition variables, the logical clock still advances on nfcpy's own sleeps / time-outs only.  The
+harness keeps the acceptor's accept() and the first I PDU apart (out-of-band event) and lets the connecting side send
+first, so the known accept()/I-after-CC races (C05/C06 findings) are not in the way.
 """
+import math
 import random
+import sys
+import threading
+import time as _time
 
 from vf.core.rec import exc_sig, exc_text
 from vf.ref import llcp_ref as ref
@@ -40,7 +59,9 @@ RULE = ("a case is one link activation between two real stacks with one option t
         "brs x lri x lrt x order factorial + random tuples + DID/NAD cells through llc.activate(); thorough: the "
         "complete grid order x brs x lri x lrt x rwt x miu_i x miu_t (51840 cells) with the other parameters "
         "rotated; distinct by option tuple, non-trivial if both sides reached on-connect and the air monitor "
-        "compared frames against the announced limits")
+        "compared frames against the announced limits; every cell also carries the extra traffic derived "
+        "deterministically from its option tuple: a near-MIU batch of concurrent resolve() calls per side, one data "
+        "link connection with I PDUs at the connection MIU in both directions, a near-MIU aggregation group")
 ASSUMPTIONS = ["vf.sim.fakenet delivers datagrams unchanged and in order; its logical clock only advances when every "
                "stack thread is blocked, so no protocol time-out fires because of scheduling",
                "the air decoder (ISO/IEC 18092 NFC-DEP frame formats, LR table 64/128/192/254 counting CMD0..payload) "
@@ -49,7 +70,10 @@ ASSUMPTIONS = ["vf.sim.fakenet delivers datagrams unchanged and in order; its lo
                "are read through one adapter; a missing name makes the cell inconclusive",
                "both devices are nfcpy; 'role' varies which device/thread initiates and whether the target alternates"]
 REQUIRED = ["cells_both_connected", "takeover_checks", "dep_frames_checked", "llc_pdus_checked",
-            "oversize_sendto_refused", "psl_exchanges_seen", "frames_of_exactly_lr", "ui_of_exactly_miu"]
+            "oversize_sendto_refused", "psl_exchanges_seen", "frames_of_exactly_lr", "ui_of_exactly_miu",
+            "snl_frames_checked", "sdreq_batches_near_miu", "sdreq_batches_just_above_room", "snl_of_exactly_miu",
+            "i_pdus_checked", "i_of_exactly_conn_miu", "oversize_send_refused", "connect_cc_pairs_seen",
+            "agf_frames_checked", "agf_within_4_of_miu"]
 
 CHECK_LTO_GUARANTEE = True      # clause lto/...
 
@@ -63,8 +87,15 @@ PARAMS = [("swap", [0, 1]), ("alt", [False, True]), ("brs", [0, 1, 2]), ("lri", 
           ("agf_t", [True, False]), ("lsc_i", [0, 1, 2, 3]), ("lsc_t", [0, 1, 2, 3]), ("snep_i", [False, True]),
           ("snep_t", [False, True]), ("tseed", [0, 1, 2])]
 PNAMES = [p for p, _ in PARAMS]
-TX_SAP, RX_SAP = 32, 33
+TX_SAP, RX_SAP = 48, 49
+DLC_SAP, DLC_CONNECTOR_SAP = 32, 33     # below the UI socket: nfcpy serves the lower address first, I and UI interleave
 LINGER_SYMM = 12
+LINGER_AFTER = 4                # idle turns after the last planned PDU
+EXTRA_TRAFFIC = True            # SNL batches, data link connection, near-MIU aggregation group
+RESIDUES = [-3, -2, -1, 0, 0, 1, 1, 1, 2, 2, 3, 4, 5, 6]     # sum of SDREQ TLV sizes - room in the SNL PDU
+NAME_PREFIX = b"urn:nfc:sn:c19"
+MIN_TLV, MAX_TLV = 3 + len(NAME_PREFIX) + 2, 3 + 254          # SDREQ TLV: T L TID name
+END = b"\xffEND"
 
 
 # ------------------------------------------------------------------------------------------ cells
@@ -113,6 +144,70 @@ def to_cell(flat, rng):
          "brs": rng.randrange(3), "lri": rng.randrange(4)}                      # ignored by a target
     return {"i": i, "t": t, "swap": flat["swap"], "alt": flat["alt"], "did": flat.get("did"), "nad": flat.get("nad"),
             "tseed": flat["tseed"]}
+
+
+def split_sizes(total, k, xr):
+    """k SDREQ TLV sizes (each MIN_TLV..MAX_TLV) that sum to total; k is raised / lowered when total needs it"""
+    k = max(k, int(math.ceil(total / float(MAX_TLV))))
+    while k > 1 and total < k * MIN_TLV:
+        k -= 1
+    if total < MIN_TLV:
+        return [MIN_TLV]
+    parts = [total // k + (1 if j < total % k else 0) for j in range(k)]
+    for _ in range(2 * k):                                # move some octets around, the sum stays
+        a, b = xr.randrange(k), xr.randrange(k)
+        room = min(parts[a] - MIN_TLV, MAX_TLV - parts[b])
+        if a != b and room > 0:
+            n = xr.randint(0, min(room, 40))
+            parts[a] -= n
+            parts[b] += n
+    return parts
+
+
+def extras_for(cell):
+    """the extra post-activation traffic of a cell, a deterministic function of its option tuple (kept in cell["x"] so
+    that a witness replays exactly)"""
+    xr = random.Random("C19x|" + repr(cell_key(cell)))
+    mi, mt = cell["i"]["miu"], cell["t"]["miu"]
+    x = {}
+    # SNL: the initiator's batch fills the target's MIU; the target answers with one SDRES (4 octets) per SDREQ that
+    # fitted the initiator's first SNL PDU and fills the rest of the initiator's MIU with its own batch
+    r_i, r_t = xr.choice(RESIDUES), xr.choice(RESIDUES)
+    sz_i = split_sizes(mt + r_i, xr.choice([2, 3, 4]), xr)
+    n_res = len(sz_i) if r_i <= 0 else len(sz_i) - 1
+    sz_t = split_sizes(mi - 4 * n_res + r_t, xr.choice([2, 3, 4]), xr)
+    x["snl"] = {"i": {"room": mt, "resid": r_i, "tlv": sz_i}, "t": {"room": mi - 4 * n_res, "resid": r_t, "tlv": sz_t}}
+    # data link connection: who connects, receive MIU and RW of the two endpoints (nfcpy bounds the MIU by the link MIU)
+
+    def want_miu(link):
+        return xr.choice([128, max(128, link - 1), link, link, link + 37, 2175, xr.randint(128, link)])
+    conn = xr.choice(["i", "t"])
+    own = {"i": mi, "t": mt}
+    x["dlc"] = {"conn": conn, "miu_c": want_miu(own[conn]), "miu_a": want_miu(own["t" if conn == "i" else "i"]),
+                "rw_c": xr.choice([1, 1, 2, 3, 7, 15]), "rw_a": xr.choice([1, 1, 2, 3, 7, 15]),
+                "seed": xr.randrange(1 << 16)}
+    x["agf"] = {"i": {"n": xr.choice([2, 3, 4, 6]), "delta": xr.choice([-2, -1, 0, 0, 1, 2])},
+                "t": {"n": xr.choice([2, 3, 4, 6]), "delta": xr.choice([-2, -1, 0, 0, 1, 2])}}
+    return x
+
+
+def sdreq_names(side, tlv_sizes):
+    out = []
+    for j, n in enumerate(tlv_sizes):
+        head = NAME_PREFIX + side.encode() + bytes([ord("a") + j % 26])
+        out.append(head + b"x" * (n - 3 - len(head)))
+    return out
+
+
+def group_sizes(total, n, overhead, cap):
+    """n data sizes (each 1..cap) with sum(overhead + size) == total, or [] if that is impossible"""
+    while n > 1 and total < n * (overhead + 1):
+        n -= 1
+    n = max(n, int(math.ceil(total / float(overhead + cap))))
+    if n < 2 or total < n * (overhead + 1) or n > 12:
+        return []
+    data = total - n * overhead
+    return [data // n + (1 if j < data % n else 0) for j in range(n)]
 
 
 def quick_cells(seed):
@@ -221,6 +316,23 @@ class AirMonitor(object):
         self.malformed = 0
         self.direction_mismatch = 0
         self.stop_gap = False       # set when the harness asks the stacks to terminate
+        self.n_snl = 0              # SNL PDUs compared with the receiver's MIU (top level or inside an AGF)
+        self.n_snl_exact = 0        # ... whose information field is exactly the receiver's MIU
+        self.n_snl_near = 0         # ... within 3 octets of it
+        self.n_snl_empty = 0
+        self.n_snl_multi = 0        # ... with two or more SDREQ
+        self.n_snl_res_req = 0      # ... with SDRES and SDREQ
+        self.max_sdreq = 0
+        self.n_i = 0                # I PDUs compared with the MIU of the receiving connection endpoint
+        self.n_i_exact = 0
+        self.n_i_noconn = 0         # I PDUs for which no CONNECT/CC pair was seen (not compared)
+        self.n_i_in_agf = 0
+        self.n_connect = 0
+        self.n_cc_pairs = 0
+        self.n_agf = 0
+        self.n_agf_near = 0         # aggregates within 4 octets of the receiver's MIU
+        self.kinds = set()
+        self.conn_params = set()    # (miu, rw) seen in CONNECT / CC
 
     def on_frame(self, f):
         try:
@@ -256,7 +368,7 @@ class AirMonitor(object):
                  "buf": {">": b"", "<": b""}, "last_td": {">": None, "<": None}, "pdus": [], "frames": 0,
                  "owes": {"i": None, "t": None}, "max_gap": {"i": 0.0, "t": 0.0}, "closing": False,
                  "ui": {">": [], "<": []}, "symm": {">": 0, "<": 0}, "agf": 0, "final_brty": {},
-                 "dep_seen": {">": 0, "<": 0}}
+                 "dep_seen": {">": 0, "<": 0}, "conn_req": {}, "conn": {}, "snl": {">": [], "<": []}}
             self.cur = s
             self.sessions.append(s)
             return
@@ -369,14 +481,67 @@ class AirMonitor(object):
                           % (dec["t"], n, miu, f.n))
         if dec["t"] == "AGF":
             s["agf"] += 1
+            self.n_agf += 1
+            if miu - n <= 4:
+                self.n_agf_near += 1
             for sub in ref.flatten(dec):
                 m = len(sub["data"]) if sub["t"] in ("UI", "I") else 0
                 if m > miu:
                     self._problem("air/llc-pdu>miu/AGF-member-%s/%s" % (sub["t"], where),
                                   "%s inside an AGF with %d bytes, receiver MIU=%d" % (sub["t"], m, miu))
+        if dec["t"] == "SNL":
+            if n == miu:
+                self.n_snl_exact += 1
+            if abs(miu - n) <= 3:
+                self.n_snl_near += 1
+        opp = "<" if d == ">" else ">"
         for sub in ref.flatten(dec):
-            if sub["t"] == "UI" and sub["dsap"] == RX_SAP and sub["ssap"] == TX_SAP:
+            t = sub["t"]
+            self.kinds.add(t)
+            if t == "UI" and sub["dsap"] == RX_SAP and sub["ssap"] == TX_SAP:
                 s["ui"][d].append(bytes(sub["data"]))
+            elif t == "SNL":
+                if not sub["sdreq"] and not sub["sdres"]:
+                    self.n_snl_empty += 1       # nfcpy fills an aggregate with empty SNL PDUs while a request waits
+                    continue
+                self.n_snl += 1
+                s["snl"][d].append((len(sub["sdreq"]), len(sub["sdres"]),
+                                    sum(3 + len(name) for _, name in sub["sdreq"]) + 4 * len(sub["sdres"])))
+                self.n_snl_multi += len(sub["sdreq"]) >= 2
+                self.n_snl_res_req += bool(sub["sdreq"] and sub["sdres"])
+                self.max_sdreq = max(self.max_sdreq, len(sub["sdreq"]))
+            elif t == "CONNECT":
+                # the sender's endpoint `ssap` announces the MIU / RW it receives with on this connection
+                self.n_connect += 1
+                self.conn_params.add((sub["miu"], sub["rw"]))
+                s["conn_req"][(d, sub["ssap"])] = {"miu": sub["miu"], "rw": sub["rw"], "by": "CONNECT"}
+            elif t == "CC":
+                req = s["conn_req"].pop((opp, sub["dsap"]), None)
+                if req is not None:
+                    self.n_cc_pairs += 1
+                    self.conn_params.add((sub["miu"], sub["rw"]))
+                    # I PDUs connector -> acceptor are bounded by the CC, acceptor -> connector by the CONNECT
+                    s["conn"][(opp, sub["ssap"], sub["dsap"])] = {"miu": sub["miu"], "rw": sub["rw"], "by": "CC"}
+                    s["conn"][(d, sub["dsap"], sub["ssap"])] = req
+            elif t == "I":
+                lim = s["conn"].get((d, sub["dsap"], sub["ssap"]))
+                if lim is None:
+                    self.n_i_noconn += 1
+                    continue
+                self.n_i += 1
+                self.n_i_in_agf += dec["t"] == "AGF"
+                m = len(sub["data"])
+                if m == min(lim["miu"], miu):
+                    self.n_i_exact += 1
+                if m > lim["miu"]:
+                    self._problem("air/i-pdu>conn-miu/%s" % where,
+                                  "I PDU %d->%d with %d bytes of service data, the receiving endpoint announced MIU=%d "
+                                  "in its %s (frame %d)" % (sub["ssap"], sub["dsap"], m, lim["miu"], lim["by"], f.n))
+
+    def conn_limit(self, d, dsap, ssap):
+        """{"miu", "rw"} announced on the air by the endpoint that receives I PDUs sent in direction d to dsap from ssap"""
+        s = self.final()
+        return None if s is None else s["conn"].get((d, dsap, ssap))
 
     def final(self):
         for s in reversed(self.sessions):
@@ -425,6 +590,28 @@ class CellRun(object):
         self.res = None
         self.net = None
         self.done_polls = 0
+        # extra traffic
+        self.x = cell.get("x")
+        self.helpers = []                       # helper threads (not participants of the net clock)
+        self.extra_started = set()
+        self.batch = {}                         # side -> {"names", "pending", "room", "sum"}
+        self.resolved = {"i": {}, "t": {}}      # name -> value returned by resolve() (or repr of an exception)
+        self.dlc = {}                           # side -> state of its data link connection endpoint
+        self.srv = {}
+        self.accepted = threading.Event()
+        self.helper_error = None
+        self.agf_group = {"i": [], "t": []}
+        self.linger_from = None
+        self.helper_waits_expired = 0
+        self.helpers_stuck = 0
+
+    def helpers_alive(self):
+        return any(th.is_alive() for th in self.helpers)
+
+
+def sd_pending(llc):
+    """adapter: number of service name requests that wait for the next SNL PDU"""
+    return len(llc.sap[1].sdreq)
 
 
 def run_cell(cell):
@@ -435,10 +622,14 @@ def run_cell(cell):
     import nfc.llcp.llc
     from vf.sim import fakenet
 
+    if EXTRA_TRAFFIC and "x" not in cell:
+        cell = dict(cell, x=extras_for(cell))
     cr = CellRun(cell)
+    x = cr.x if EXTRA_TRAFFIC else None
     net = cr.net = fakenet.FakeNet(clock="virtual", stall_limit=15.0)
     mon = cr.mon
     net.observers.append(mon.on_frame)
+    DLC = nfc.llcp.DATA_LINK_CONNECTION
 
     def startup(side):
         dev = cell[side]
@@ -448,9 +639,185 @@ def run_cell(cell):
             rx.setsockopt(nfc.llcp.SO_RCVBUF, 64)
             rx.bind(RX_SAP)
             if dev.get("snep"):
-                nfc.llcp.Socket(llc, nfc.llcp.DATA_LINK_CONNECTION).bind("urn:nfc:sn:snep")
+                nfc.llcp.Socket(llc, DLC).bind("urn:nfc:sn:snep")
+            if x is not None and x["dlc"]["conn"] != side:
+                srv = nfc.llcp.Socket(llc, DLC)
+                srv.setsockopt(nfc.llcp.SO_RCVMIU, x["dlc"]["miu_a"])
+                srv.setsockopt(nfc.llcp.SO_RCVBUF, x["dlc"]["rw_a"])
+                srv.bind(DLC_SAP)
+                srv.listen(1)
+                cr.srv[side] = srv
             return llc
         return on_startup
+
+    # A helper thread reacts to what the link loop hands it (CC, I PDU, SDRES) in real time while the link loop only
+    # sleeps on the logical clock.  Before a stack's sleep is passed to the net, wait (real time, bounded) until every
+    # helper thread is parked in a condition variable again, i.e. has done everything it can do with what it got: the
+    # traffic then needs the same few link turns on a loaded machine as on an idle one.
+    net_sleep = net._sleep
+
+    def blocked(th, frames):
+        f = frames.get(th.ident)
+        return f is None or (f.f_code.co_name == "wait" and f.f_code.co_filename.endswith("threading.py"))
+
+    def patient_sleep(seconds):
+        if cr.helpers and threading.current_thread() not in cr.helpers:
+            t0 = None
+            while True:
+                frames = sys._current_frames()
+                if all(blocked(th, frames) for th in cr.helpers if th.is_alive()):
+                    break
+                if t0 is None:
+                    t0 = _time.time()
+                elif _time.time() - t0 > 0.05:
+                    cr.helper_waits_expired += 1
+                    break
+                _time.sleep(0.00005)
+        return net_sleep(seconds)
+    if x is not None:
+        net._sleep = patient_sleep
+
+    def helper(fn, name):
+        def body():
+            try:
+                fn()
+            except Exception as e:                  # a harness bug: reported as inconclusive
+                cr.helper_error = cr.helper_error or exc_text(e)
+        th = threading.Thread(target=body, name=name, daemon=True)
+        cr.helpers.append(th)
+        th.start()
+        return th
+
+    # ---- (1) a batch of concurrent resolve() calls, pending before the link loop collects
+    def start_batch(side, llc):
+        plan = x["snl"][side]
+        names = sdreq_names(side, plan["tlv"])
+        b = cr.batch[side] = {"names": names, "pending": 0, "room": plan["room"], "sum": sum(plan["tlv"]),
+                              "k": len(names), "confirmed": False}
+
+        def resolver(name):
+            def run():
+                try:
+                    v = nfc.llcp.Socket(llc, None).resolve(name)
+                except nfc.llcp.Error as e:
+                    v = repr(e)
+                cr.resolved[side][name] = v
+            return run
+        try:
+            base = sd_pending(llc)
+        except Exception as e:
+            cr.adapter_error = cr.adapter_error or exc_text(e)
+            return
+        for j, name in enumerate(names):            # one by one: the order of the requests is the order of the names
+            helper(resolver(name), "resolve-%s%d" % (side, j))
+            t0 = _time.time()
+            while sd_pending(llc) - base < j + 1 and _time.time() - t0 < 3.0:
+                _time.sleep(0.0002)
+        b["pending"] = sd_pending(llc) - base
+        b["confirmed"] = b["pending"] == len(names)
+
+    # ---- (2) one data link connection, I PDUs at the connection MIU in both directions
+    def dlc_send(sock, st, lim, pax_peer, seed):
+        """I PDUs to the peer endpoint, which announced lim = {"miu", "rw"} on the air"""
+        rs = random.Random(seed)
+        top = min(lim["miu"], pax_peer["miu"])
+        st["limit"] = top
+        group = group_sizes(pax_peer["miu"] + rs.choice([-2, -1, 0, 1, 2]), min(max(lim["rw"], 1), 4), 5, top)
+        if not group:
+            group = [rs.choice([1, 2, 3, 5, 9]) for _ in range(min(max(lim["rw"], 1), 3))]
+        plan = ([(top + 1, 0), (top, 0)] + [(n, nfc.llcp.MSG_DONTWAIT) for n in group]
+                + [(max(1, top - rs.choice([1, 2, 3])), 0), (top, 0)])
+        for idx, (n, flags) in enumerate(plan):
+            data = ui_data(idx, n)
+            try:
+                try:
+                    ok = sock.send(data, flags)
+                except nfc.llcp.Error as e:
+                    if e.errno != errno.EWOULDBLOCK:
+                        raise
+                    ok = sock.send(data, 0)         # send window closed: wait for it
+                st["sent"].append(n)
+                if not ok:
+                    return False
+            except nfc.llcp.Error as e:
+                if e.errno == errno.EMSGSIZE:
+                    st["refused"].append(n)
+                else:
+                    raise
+        sock.send(END, 0)       # its return value says whether the connection is still up *after* the PDU went out:
+        return True             # the peer may have answered the END with its DISC already
+
+    def dlc_recv(sock, st):
+        for _ in range(64):
+            data = sock.recv()
+            if data is None:
+                return False
+            if bytes(data) == END:
+                return True
+            st["rcvd"].append(len(data))
+        return False
+
+    def new_state(side, role):
+        st = cr.dlc[side] = {"role": role, "phase": "start", "sent": [], "refused": [], "rcvd": [], "error": None,
+                             "limit": None}
+        return st
+
+    def connector(side, llc, pax_peer):
+        st = new_state(side, "connector")
+        d = ">" if side == "i" else "<"
+
+        def run():
+            try:
+                sock = nfc.llcp.Socket(llc, DLC)
+                sock.setsockopt(nfc.llcp.SO_RCVMIU, x["dlc"]["miu_c"])
+                sock.setsockopt(nfc.llcp.SO_RCVBUF, x["dlc"]["rw_c"])
+                sock.bind(DLC_CONNECTOR_SAP)
+                sock.connect(DLC_SAP)
+                st["phase"] = "connected"
+                cr.accepted.wait(5.0)               # keep clear of the accept()/first-I race (see the module text)
+                lim = mon.conn_limit(d, sock.getpeername(), sock.getsockname())
+                if lim is None:
+                    st["error"] = "no CONNECT/CC pair on the air"
+                    return
+                if not dlc_send(sock, st, lim, pax_peer, x["dlc"]["seed"]):
+                    return
+                st["phase"] = "sent"
+                if not dlc_recv(sock, st):
+                    return
+                st["phase"] = "received"
+                sock.close()
+                st["phase"] = "closed"
+            except nfc.llcp.Error as e:
+                st["error"] = repr(e)
+        return run
+
+    def acceptor(side, llc, pax_peer):
+        st = new_state(side, "acceptor")
+        d = ">" if side == "i" else "<"
+
+        def run():
+            try:
+                try:
+                    sock = cr.srv[side].accept()
+                finally:
+                    cr.accepted.set()
+                st["phase"] = "connected"
+                if not dlc_recv(sock, st):
+                    return
+                st["phase"] = "received"
+                lim = mon.conn_limit(d, sock.getpeername(), sock.getsockname())     # the CC went out after accept()
+                if lim is None:
+                    st["error"] = "no CONNECT/CC pair on the air"
+                    return
+                if not dlc_send(sock, st, lim, pax_peer, x["dlc"]["seed"] + 1):
+                    return
+                st["phase"] = "sent"
+                if sock.recv() is None:             # the connector's DISC
+                    st["phase"] = "closed"
+                sock.close()
+            except nfc.llcp.Error as e:
+                st["error"] = repr(e)
+        return run
 
     def on_connect(side):
         def cb(llc):
@@ -463,9 +830,19 @@ def run_cell(cell):
             pax_peer = None if s is None else (s["pax_t"] if side == "i" else s["pax_i"])
             if pax_peer is None:
                 return True
+            extra = x is not None and side not in cr.extra_started
+            if extra:
+                cr.extra_started.add(side)
+                start_batch(side, llc)
             tx = nfc.llcp.Socket(llc, nfc.llcp.LOGICAL_DATA_LINK)
             tx.bind(TX_SAP)
-            for idx, n in enumerate(traffic_sizes(pax_peer["miu"], cell["tseed"] * 2 + (side == "t"))):
+            sizes = traffic_sizes(pax_peer["miu"], cell["tseed"] * 2 + (side == "t"))
+            if extra:
+                # (3) small PDUs queued at once whose aggregate would have MIU + delta octets of information
+                g = x["agf"][side]
+                cr.agf_group[side] = group_sizes(pax_peer["miu"] + g["delta"], g["n"], 4, pax_peer["miu"])
+                sizes = sizes + cr.agf_group[side] + [pax_peer["miu"]]
+            for idx, n in enumerate(sizes):
                 data = ui_data(idx, n)
                 try:
                     tx.sendto(data, RX_SAP, nfc.llcp.MSG_DONTWAIT)
@@ -475,6 +852,11 @@ def run_cell(cell):
                         cr.refused[side].append(n)
                     else:
                         cr.sendto_error[side] = repr(e)
+            if extra:
+                if x["dlc"]["conn"] == side:
+                    helper(connector(side, llc, pax_peer), "dlc-connect-" + side)
+                elif side in cr.srv:
+                    helper(acceptor(side, llc, pax_peer), "dlc-accept-" + side)
             return True
         return cb
 
@@ -485,8 +867,13 @@ def run_cell(cell):
         if s is None:
             return True
         done = (len(s["ui"][">"]) >= len(cr.sent["i"]) and len(s["ui"]["<"]) >= len(cr.sent["t"])
-                and s["symm"][">"] >= LINGER_SYMM and s["symm"]["<"] >= LINGER_SYMM)
-        if done or res.polls[side] > 1500:
+                and not cr.helpers_alive())
+        if done and cr.linger_from is None:
+            cr.linger_from = (s["symm"][">"], s["symm"]["<"])
+        if done:        # the planned traffic is through: a few more idle turns
+            done = (s["symm"][">"] >= max(LINGER_SYMM, cr.linger_from[0] + LINGER_AFTER)
+                    and s["symm"]["<"] >= max(LINGER_SYMM, cr.linger_from[1] + LINGER_AFTER))
+        if done or res.polls[side] > 3000:
             mon.stop_gap = True
             return True
         return False
@@ -521,7 +908,11 @@ def run_cell(cell):
             cr.res = _run_pair_swapped(fakenet, net, oi, ot, on_connect("i"), on_connect("t"), terminate, connect_i)
         else:
             cr.res = fakenet.run_llcp_pair(net, oi, ot, on_connect("i"), on_connect("t"), terminate,
-                                           watchdog=30.0, max_polls=4000, connect_i=connect_i)
+                                           watchdog=30.0, max_polls=6000, connect_i=connect_i)
+    t0 = _time.time()
+    for th in cr.helpers:           # the link is down: every blocked socket call has been released
+        th.join(max(0.0, 2.0 - (_time.time() - t0)))
+    cr.helpers_stuck = sum(th.is_alive() for th in cr.helpers)
     return cr
 
 
@@ -530,7 +921,7 @@ def _run_pair_swapped(fakenet, net, oi, ot, cbi, cbt, terminate, connect_i):
     hand it the initiator's options as side "t" and translate the result back"""
     def term(res, side):
         return terminate(_Swapped(res), "i" if side == "t" else "t")
-    res = fakenet.run_llcp_pair(net, ot, oi, cbt, cbi, term, watchdog=30.0, max_polls=4000, connect_t=connect_i)
+    res = fakenet.run_llcp_pair(net, ot, oi, cbt, cbi, term, watchdog=30.0, max_polls=6000, connect_t=connect_i)
     return _Swapped(res)
 
 
@@ -557,6 +948,8 @@ def evaluate(cr):
     obs = {}
     if mon.error:
         return "inconclusive:monitor error " + mon.error[-300:], V, obs
+    if cr.helper_error:
+        return "inconclusive:harness helper thread failed " + cr.helper_error[-400:], V, obs
     if res.exc_cb["i"] or res.exc_cb["t"]:
         e = res.exc_cb["i"] or res.exc_cb["t"]
         return "inconclusive:harness callback failed " + exc_text(e)[-400:], V, obs
@@ -668,6 +1061,34 @@ def evaluate(cr):
         if side in cr.snap and any(n <= peer["miu"] for n in cr.refused[side]):
             V.append(("llc/sendto-refuses-announced-miu/%s" % role, "UI of %r bytes refused, peer announced MIU=%d"
                       % (cr.refused[side], peer["miu"])))
+    # ---- extra traffic: local enforcement on the data link connection, what was planned and what got through
+    if cr.x is not None:
+        near = above = 0
+        for side in ("i", "t"):
+            b = cr.batch.get(side)
+            if b is not None and b["confirmed"]:
+                r = b["sum"] - b["room"]
+                near += -3 <= r <= 6
+                above += 1 <= r <= b["k"] - 1         # the whole batch is one octet .. k-1 octets too long for the PDU
+        obs["batches_near"], obs["batches_above"] = near, above
+        obs["resolve_calls"] = sum(len(cr.batch[sd]["names"]) for sd in cr.batch)
+        obs["resolve_answers"] = sum(1 for sd in cr.batch for v in cr.resolved[sd].values() if v == 0)
+        obs["snl_complete"] = (len(cr.batch) == 2 and obs["resolve_calls"] == obs["resolve_answers"])
+        n_ref = 0
+        for side, role in (("i", "initiator"), ("t", "target")):
+            st = cr.dlc.get(side)
+            if st is None or st["limit"] is None:
+                continue
+            n_ref += sum(1 for n in st["refused"] if n > st["limit"])
+            if any(n <= st["limit"] for n in st["refused"]):
+                V.append(("dlc/send-refuses-announced-miu/%s" % role, "send() of %r bytes on the data link connection "
+                          "refused with EMSGSIZE, the peer endpoint announced MIU=%d (link MIU %d)"
+                          % ([n for n in st["refused"] if n <= st["limit"]], st["limit"],
+                             (pt if side == "i" else pi)["miu"])))
+        obs["dlc_refused"] = n_ref
+        obs["dlc_complete"] = (len(cr.dlc) == 2 and all(st["phase"] == "closed" for st in cr.dlc.values()))
+        obs["dlc_errors"] = sorted("%s:%s:%s" % (st["role"], st["phase"], st["error"]) for st in cr.dlc.values()
+                                   if st["error"])
     # ---- LTO guarantee on the logical clock
     if CHECK_LTO_GUARANTEE:
         for side, role, own in (("i", "initiator", pi), ("t", "target", pt)):
@@ -700,6 +1121,7 @@ def cell_key(cell):
 
 def do_cell(cell, R, record=True):
     cr = run_cell(cell)
+    cell = cr.cell                  # with the derived extra traffic plan ("x"), so that a witness replays exactly
     status, V, obs = evaluate(cr)
     mon = cr.mon
     nontrivial = status == "ok"
@@ -726,6 +1148,50 @@ def do_cell(cell, R, record=True):
     R.count("air_frames", cr.net.n_frames)
     R.count("oversize_sendto_refused", len(cr.refused["i"]) + len(cr.refused["t"]))
     R.count("ui_accepted", len(cr.sent["i"]) + len(cr.sent["t"]))
+    R.count("snl_frames_checked", mon.n_snl)
+    R.count("snl_of_exactly_miu", mon.n_snl_exact)
+    R.count("snl_within_3_of_miu", mon.n_snl_near)
+    R.count("snl_with_several_sdreq", mon.n_snl_multi)
+    R.count("snl_empty_inside_agf", mon.n_snl_empty)
+    R.count("snl_with_sdres_and_sdreq", mon.n_snl_res_req)
+    R.max("sdreq_in_one_snl", mon.max_sdreq)
+    R.count("i_pdus_checked", mon.n_i)
+    R.count("i_of_exactly_conn_miu", mon.n_i_exact)
+    R.count("i_pdus_in_agf", mon.n_i_in_agf)
+    R.count("i_pdus_without_connection_on_air", mon.n_i_noconn)
+    R.count("connect_seen", mon.n_connect)
+    R.count("connect_cc_pairs_seen", mon.n_cc_pairs)
+    R.count("agf_frames_checked", mon.n_agf)
+    R.count("agf_within_4_of_miu", mon.n_agf_near)
+    for k in mon.kinds:
+        R.seen("llc_pdu_kinds_on_air", k)
+    for mr in mon.conn_params:
+        R.seen("connect_cc_(miu,rw)_on_air", list(mr))
+    if cr.x is not None:
+        R.count("cells_with_extra_traffic")
+        R.count("sdreq_batches_near_miu", obs.get("batches_near", 0))
+        R.count("sdreq_batches_just_above_room", obs.get("batches_above", 0))
+        R.count("resolve_calls", obs.get("resolve_calls", 0))
+        R.count("resolve_answers", obs.get("resolve_answers", 0))
+        R.count("oversize_send_refused", obs.get("dlc_refused", 0))
+        R.count("helper_threads_left_blocked", cr.helpers_stuck)
+        R.count("helper_reaction_waits_expired", cr.helper_waits_expired)
+        if obs.get("dlc_complete"):
+            R.count("cells_dlc_traffic_complete")
+        if obs.get("snl_complete"):
+            R.count("cells_all_names_answered")
+        for e in obs.get("dlc_errors", []):
+            R.seen("dlc_errors", e)
+        if "dlc_complete" in obs and not (obs["dlc_complete"] and obs["snl_complete"]):
+            R.count("cells_extra_traffic_incomplete")
+            if not obs.get("rwt_exceeded") and not V:
+                R.count("cells_extra_traffic_incomplete_unexplained")
+                R.inconc("the link ended (or the poll bound was reached) before the planned SNL / data link connection "
+                         "traffic was through, the target kept its RWT and no clause fired: %r dlc=%r"
+                         % (cell, {sd: (st["role"], st["phase"], st["error"]) for sd, st in cr.dlc.items()}))
+                R.sample({"incomplete": cell, "dlc": cr.dlc, "batch": {k: {kk: vv for kk, vv in b.items() if kk != "names"}
+                                                                        for k, b in cr.batch.items()},
+                          "resolved": {sd: sorted(map(repr, cr.resolved[sd].values())) for sd in cr.resolved}})
     s = mon.final()
     if s is not None:
         R.count("ui_on_air", len(s["ui"][">"]) + len(s["ui"]["<"]))
